@@ -310,8 +310,13 @@ def _stored_back(f: Fn, c: ast.Call, construct: ast.AST, node: str) -> bool:
 def _class_arm_ok(f: Fn, c: ast.Call, rt: str, node: str) -> bool:
     loops = [l for l in enclosing_loops(c, f.node) if isinstance(l, ast.For)]
     for l in loops:
-        if isinstance(l.iter, ast.Call) and call_name(l.iter) == 'class_subobjects' and l.iter.args \
-                and norm(l.iter.args[0]) == rt and whole_collection_loop(l) \
+        # the triples may have been materialised first (`attrs = list(class_subobjects(T))`): same elements, same order
+        it_ = f.alpha.rewrite(l.iter) if isinstance(l.iter, ast.Name) else l.iter
+        while isinstance(it_, ast.Call) and isinstance(it_.func, ast.Name) and it_.func.id in ('list', 'tuple') and len(it_.args) == 1 \
+                and not it_.keywords:
+            it_ = it_.args[0]
+        if isinstance(it_, ast.Call) and call_name(it_) == 'class_subobjects' and it_.args \
+                and f.alpha.text(it_.args[0]) == f.alpha.text(ast.Name(rt, ast.Load())) and whole_collection_loop(l) \
                 and isinstance(l.target, ast.Tuple) and len(l.target.elts) == 3:
             name_v, type_v = norm(l.target.elts[0]), norm(l.target.elts[1])
             if norm(c.args[1]) != type_v:
@@ -793,6 +798,113 @@ def _ancestors_list(n):
     return out
 
 
+def _list_provenance(f: Fn, e: ast.AST, source: str, seen: Set[str]):
+    """(constants removed, '') when the collection `e` is the parameter `source` minus some literal names, whatever the spelling:
+    copies (list()/set()/tuple()/.copy()/[:]), filtering comprehensions, set difference, `.remove(c)` / `.discard(c)` executed
+    whenever c is present.  (None, reason) otherwise."""
+    from ..dictflow import cond_truth, K
+    from ..dtable import subst
+    if isinstance(e, ast.Name) and e.id == source:
+        return set(), ''
+    if isinstance(e, ast.Call) and isinstance(e.func, ast.Name) and e.func.id in ('list', 'set', 'tuple', 'frozenset') and len(e.args) == 1 \
+            and not e.keywords:
+        return _list_provenance(f, e.args[0], source, seen)
+    if isinstance(e, ast.Call) and isinstance(e.func, ast.Attribute) and e.func.attr == 'copy' and not e.args:
+        return _list_provenance(f, e.func.value, source, seen)
+    if isinstance(e, ast.Subscript) and isinstance(e.slice, ast.Slice) and e.slice.lower is None and e.slice.upper is None and e.slice.step is None:
+        return _list_provenance(f, e.value, source, seen)
+    if isinstance(e, (ast.ListComp, ast.SetComp, ast.GeneratorExp)) and len(e.generators) == 1 \
+            and isinstance(e.generators[0].target, ast.Name) and norm(e.elt) == e.generators[0].target.id:
+        g = e.generators[0]
+        inner, why = _list_provenance(f, g.iter, source, seen)
+        if inner is None:
+            return None, why
+        out = set(inner)
+        for cond in g.ifs:
+            c2 = subst(cond, {g.target.id: ast.Name(K, ast.Load())})
+            consts = {x.value for x in ast.walk(c2) if isinstance(x, ast.Constant) and isinstance(x.value, str)}
+            if cond_truth(c2, '\x00other', {}) is not True:
+                return None, 'unsupported filter %s' % norm(cond)
+            for c in consts:
+                t = cond_truth(c2, c, {})
+                if t is None:
+                    return None, 'unsupported filter %s' % norm(cond)
+                if t is False:
+                    out.add(c)
+        return out, ''
+    if isinstance(e, ast.BinOp) and isinstance(e.op, ast.Sub) and isinstance(e.right, (ast.Set, ast.Tuple, ast.List)) \
+            and all(const_str(x) is not None for x in e.right.elts):
+        inner, why = _list_provenance(f, e.left, source, seen)
+        return (None, why) if inner is None else (inner | {const_str(x) for x in e.right.elts}, '')
+    if isinstance(e, ast.Name):
+        name = e.id
+        if name in seen:
+            return None, 'circular definition of %s' % name
+        srcs = assigned_from(f, name)
+        if not srcs:
+            return None, '%s is not bound in the function' % name
+        out = None
+        for s_ in srcs:
+            got, why = _list_provenance(f, s_, source, seen | {name})
+            if got is None:
+                return None, why
+            if out is not None and got != out:
+                return None, '%s is bound to different collections' % name
+            out = got
+        for n in f.walk():
+            if isinstance(n, ast.Call) and isinstance(n.func, ast.Attribute) and norm(n.func.value) == name:
+                if n.func.attr in ('remove', 'discard') and n.args and const_str(n.args[0]) is not None:
+                    # counts only when it is executed whenever the name is in the list: live, and guarded by nothing
+                    # but the membership test for the same name (or an earlier raise for its absence)
+                    c0 = const_str(n.args[0])
+                    # a guard whose other branch always raises (`if 'self' not in L: raise ..`) does not make the removal conditional
+                    gs = {canon_atom(x.ast, x.pol) for x in f.cfg.guard_nodes(f.nid(n)) if not _other_branch_raises(x.ast, x.pol)}
+                    aliases = {name} | {norm(x) for x in srcs if isinstance(x, ast.Name)}
+                    if f.live(n) and all(p and any(t == ("%r in %s" % (c0, al)) for al in aliases | _copies_of(f, name)) for t, p in gs):
+                        out = out | {c0}
+                    else:
+                        return None, '%s happens only under %s' % (norm(n), sorted(t for t, _ in gs))
+                elif n.func.attr in MUTATORS:
+                    return None, 'known-keys list mutated by %s' % norm(n)
+        return out, ''
+    return None, 'known-keys collection built from %s' % norm(e)[:60]
+
+
+def _always_raises(stmts) -> bool:
+    if not stmts:
+        return False
+    last = stmts[-1]
+    if isinstance(last, ast.Raise):
+        return True
+    if isinstance(last, ast.If):
+        return _always_raises(last.body) and _always_raises(last.orelse)
+    return False
+
+
+def _other_branch_raises(test: ast.AST, pol: bool) -> bool:
+    """the guard `test` (held with polarity pol) belongs to an `if` whose other branch ends in raise on every path"""
+    st = parent(test)
+    while st is not None and not isinstance(st, (ast.If, ast.stmt)):
+        st = parent(st)
+    if not isinstance(st, ast.If) or st.test is not test:
+        return False
+    return _always_raises(st.orelse if pol else st.body)
+
+
+def _copies_of(f: Fn, name: str) -> Set[str]:
+    """names of collections that `name` is a plain copy of (a membership test on the original decides membership in the copy as
+    long as nothing was removed in between - used only for the guard of the first removal)"""
+    out = set()
+    for s_ in assigned_from(f, name):
+        x = s_
+        while isinstance(x, ast.Call) and isinstance(x.func, ast.Name) and x.func.id in ('list', 'set', 'tuple') and len(x.args) == 1:
+            x = x.args[0]
+        if isinstance(x, ast.Name):
+            out.add(x.id)
+            out |= _copies_of(f, x.id) if x.id != name else set()
+    return out
+
+
 def strip_exempt_removed(P: Program) -> Tuple[Optional[Set[str]], str, Fn]:
     """names removed from the constructor-argument list before it is used as the set exempt from tag stripping"""
     f = fn(P, CTOR + '__strip_extra_attributes')
@@ -813,40 +925,10 @@ def strip_exempt_removed(P: Program) -> Tuple[Optional[Set[str]], str, Fn]:
             return None, 'strip_tags is not guarded by `key not in <known>`', f
         if not (isinstance(key, ast.Attribute) and key.attr == 'value'):
             return None, 'strip guard does not test the key node\'s value', f
-        if isinstance(lst, ast.Name):
-            name = lst.id
-            srcs = assigned_from(f, name)
-            if name == known_param:
-                srcs = [ast.Name(id=known_param, ctx=ast.Load())]
-            for s in srcs:
-                s_txt = norm(s)
-                if s_txt in ('list(%s)' % known_param, known_param, '%s.copy()' % known_param, '%s[:]' % known_param,
-                             'set(%s)' % known_param):
-                    continue
-                if isinstance(s, (ast.ListComp, ast.SetComp)) and len(s.generators) == 1 \
-                        and norm(s.generators[0].iter) == known_param and norm(s.elt) == norm(s.generators[0].target):
-                    for cond in s.generators[0].ifs:
-                        a, ex = tag_equalities(conj_atoms(cond, True), norm(s.elt))
-                        if ex and not a:
-                            for x in ex:
-                                removed.add(ast.literal_eval(x))
-                        else:
-                            return None, 'unsupported filter %s' % norm(cond), f
-                    continue
-                return None, 'known-keys list built from %s' % s_txt, f
-            for n in f.walk():
-                if isinstance(n, ast.Call) and isinstance(n.func, ast.Attribute) and norm(n.func.value) == name:
-                    if n.func.attr in ('remove', 'discard') and n.args and const_str(n.args[0]) is not None:
-                        # counts only when it is executed whenever the name is in the list: live, and guarded by nothing
-                        # but the membership test for the same name (or an earlier raise for its absence)
-                        c0 = const_str(n.args[0])
-                        gs = {canon_atom(g, p) for g, p in f.guards(n)}
-                        if f.live(n) and all(t == ("%r in %s" % (c0, name)) and p for t, p in gs):
-                            removed.add(c0)
-                    elif n.func.attr in MUTATORS:
-                        return None, 'known-keys list mutated by %s' % norm(n), f
-        else:
-            return None, 'strip guard consults %s' % norm(lst), f
+        got, why = _list_provenance(f, lst, known_param, set())
+        if got is None:
+            return None, why, f
+        removed |= got
     return removed, 'ok', f
 
 
@@ -2513,7 +2595,7 @@ def r12_sinks(ctx):
             v = ud[0].class_attrs.get('output_format')
             fmt = const_str(v) if v is not None else 'yaml'
         add = [norm(c) for c in f.calls('add_to_dumper')]
-        regs = sorted({(norm(c.args[0]), norm(c.args[1])) for c in f.calls('add_representer') if len(c.args) == 2})
+        regs = sorted({(short_class(fi.module, c.args[0]), norm(c.args[1])) for c in f.calls('add_representer') if len(c.args) == 2})
         # registrations inherited from Dumper at module level are part of the effective table
         inherited = module_representers(P)
         eff = sorted(set(regs) | set(inherited))
@@ -2534,41 +2616,59 @@ def r12_sinks(ctx):
         f = fn(P, key)
         io = f.fi.params[2] if 'dumper' in key else f.fi.params[1]
         is_dump = 'dumper' in key
-        # with-statements only over a call to <io>.open(mode)
-        for w in [n for n in f.walk() if isinstance(n, ast.With)]:
-            for it in w.items:
-                e = it.context_expr
-                ok = isinstance(e, ast.Call) and isinstance(e.func, ast.Attribute) and e.func.attr == 'open' \
-                    and norm(e.func.value) == io and f.has_guard(e, 'isinstance(%s, Path)' % io, True, expand=False)
-                mode = const_str(e.args[0]) if ok and e.args else None
-                ok = ok and mode == ('w' if is_dump else 'r') and len(e.args) == 1 and not e.keywords
-                r4.check(ok, '%s: with %s (only for a Path, text mode)' % (f.fi.qual, norm(e)), f.key('with:%s' % norm(e)[:30]), f.loc(w),
-                         'a context manager is entered on %s: either a stream handed in by the caller is closed, or the file is '
-                         'not opened in text mode %r' % (norm(e), 'w' if is_dump else 'r'))
-        # the only tests on the source/sink are isinstance(.., str/Path)
-        for b in f.cfg.nodes:
-            if b.kind == 'test' and io in {x.id for x in ast.walk(b.ast) if isinstance(x, ast.Name)}:
-                ia = isinstance_atom(b.ast)
-                ok = ia is not None and ia[0] == io and ia[1] <= ({'str', 'Path'} if is_dump else {'Path'})
-                r4.check(ok, '%s: branch on %s' % (f.fi.qual, norm(b.ast)), f.key('branch:%s' % norm(b.ast)[:40]), f.loc(b.ast),
-                         'the %s is special-cased by `%s`: equal documents/values are treated differently depending on the kind '
-                         'or content of the %s' % ('sink' if is_dump else 'source', norm(b.ast), 'sink' if is_dump else 'source'))
-        # re-bindings of the io variable: only `sink = Path(sink)` under isinstance(sink, str)
-        for n in f.walk():
-            if isinstance(n, ast.Assign) and any(norm(t) == io for t in n.targets):
-                ok = is_dump and norm(n.value) == 'Path(%s)' % io and f.has_guard(n, 'isinstance(%s, str)' % io, True, expand=False)
-                r4.check(ok, '%s: %s under isinstance(%s, str)' % (f.fi.qual, norm(n), io), f.key('rebind:%s' % norm(n.value)[:30]), f.loc(n),
-                         'the %s is replaced by %s' % ('sink' if is_dump else 'source', norm(n.value)))
-        # what reaches PyYAML is the opened file or the object itself
-        name = 'dump' if is_dump else 'load'
-        for fi2, c in yaml_calls(P, name):
-            if fi2.key != key:
+        # E12: the function is run abstractly once per documented kind of source/sink; what it opens, closes and hands to PyYAML
+        # is compared with the documented behaviour for that kind
+        from ..iokind import KindRun, KINDS, Unsupported as IoUnsupported, describe
+        mode = 'w' if is_dump else 'r'
+        yname = 'dump' if is_dump else 'load'
+        for kind in KINDS:
+            try:
+                run = KindRun(f.fi.node, io, kind)
+            except IoUnsupported as e:
+                r4.fail(f.key('io-form:%s' % kind), f.loc(), '%s is not in a form whose treatment of a %s can be followed (%s)'
+                        % (f.fi.qual, kind, e))
                 continue
-            a = c.args[1] if is_dump else c.args[0]
-            wvars = {norm(it.optional_vars) for w in f.walk() if isinstance(w, ast.With) for it in w.items if it.optional_vars is not None}
-            r4.check(norm(a) == io or norm(a) in wvars, '%s: yaml.%s receives %s' % (f.fi.qual, name, norm(a)),
-                     f.key('yaml-%s-arg:%s' % (name, norm(a))), f.loc(c), 'yaml.%s receives %s instead of the %s itself / the '
-                     'opened file' % (name, norm(a), 'sink' if is_dump else 'source'))
+            if kind == 'str' and is_dump:
+                want_open = ('path', ('io', 'str'))
+            elif kind == 'Path':
+                want_open = ('io', 'Path')
+            else:
+                want_open = None
+            normal = [p_ for p_ in run.paths if p_.end != 'raise']
+            r4.check(bool(normal), '%s, %s: returns normally on some path' % (f.fi.qual, kind), f.key('io:%s:returns' % kind), f.loc(),
+                     'a %s %s is always rejected' % (kind, 'sink' if is_dump else 'source'))
+            for p_ in run.paths:
+                und = sorted(set(p_.undecided))
+                r4.check(not und, '%s, %s: every branch on the %s is decided by its kind' % (f.fi.qual, kind, 'sink' if is_dump else 'source'),
+                         f.key('branch:%s' % (und[0][:40] if und else '')), f.loc(),
+                         'the %s is special-cased by `%s`: equal documents/values are treated differently depending on the content or '
+                         'another property of the %s' % ('sink' if is_dump else 'source', und[0] if und else '', 'sink' if is_dump else 'source'))
+                if p_.end == 'raise':
+                    continue
+                opens = [e for e in p_.events if e[0] in ('with-open', 'open')]
+                yamls = [e for e in p_.events if e[0] == 'yaml']
+                others = [e for e in p_.events if e[0] not in ('with-open', 'yaml')]
+                if want_open is None:
+                    ok_open = not opens
+                    want_stream = ('io', kind)
+                else:
+                    ok_open = len(opens) == 1 and opens[0] == ('with-open', want_open, ("'%s'" % mode,))
+                    want_stream = ('opened', want_open, ("'%s'" % mode,))
+                r4.check(ok_open, '%s, %s: %s' % (f.fi.qual, kind, 'opens exactly %s in text mode %r under `with`' % (describe(want_open), mode)
+                                                   if want_open else 'opens nothing'),
+                         f.key('io:%s:open' % kind), f.loc(),
+                         'for a %s the function opens %s (documented: %s)' % (
+                             kind, '; '.join('%s %s (%s)' % (e[0], describe(e[1]), ', '.join(e[2])) for e in opens) or 'nothing',
+                             ('with %s.open(%r)' % (describe(want_open), mode)) if want_open else 'nothing is opened: the object goes to '
+                             'PyYAML as it is'))
+                r4.check(not others, '%s, %s: the %s is not read, written or closed here' % (f.fi.qual, kind, 'sink' if is_dump else 'source'),
+                         f.key('io:%s:touch:%s' % (kind, others[0][0] if others else '')), f.loc(),
+                         'for a %s the function itself calls %s on %s: a stream handed in by the caller is closed / consumed, or a file '
+                         'is handled outside `with`' % (kind, others[0][0] if others else '', describe(others[0][1]) if others else ''))
+                ok_y = len(yamls) == 1 and yamls[0][1] == yname and yamls[0][2] == want_stream
+                r4.check(ok_y, '%s, %s: yaml.%s receives %s' % (f.fi.qual, kind, yname, describe(want_stream)),
+                         f.key('io:%s:yaml-arg' % kind), f.loc(), 'for a %s, PyYAML receives %s (documented: one yaml.%s on %s)' % (
+                             kind, '; '.join('yaml.%s(%s)' % (e[1], describe(e[2])) for e in yamls) or 'nothing', yname, describe(want_stream)))
     # both branches of LoadFunction.__call__ pass the same Loader
     lf = fn(P, 'yatiml.loader:load_function.LoadFunction.__call__')
     ls = {norm(kwarg(c, 'Loader')) if kwarg(c, 'Loader') is not None else None for fi2, c in yaml_calls(P, 'load') if fi2.key == lf.fi.key}
@@ -2607,11 +2707,22 @@ def r12_sinks(ctx):
     r5.done()
 
 
+def short_class(m, e: ast.AST) -> str:
+    """the class an expression names, by its own name: `PosixPath` and `pathlib.PosixPath` (whatever the import style) are both
+    PosixPath"""
+    dn = dotted_name(e)
+    if dn is None:
+        return norm(e)
+    head, _, rest = dn.partition('.')
+    full = m.imports.get(head, head) + ('.' + rest if rest else '')
+    return full.rsplit('.', 1)[-1]
+
+
 def module_representers(P: Program) -> List[Tuple[str, str]]:
     m = P.module('yatiml.dumper')
     out = []
     for st in m.tree.body:
         if isinstance(st, ast.Expr) and isinstance(st.value, ast.Call) and call_name(st.value) == 'add_representer' \
                 and norm(st.value.func.value) == 'Dumper' and len(st.value.args) == 2:
-            out.append((norm(st.value.args[0]), norm(st.value.args[1])))
+            out.append((short_class(m, st.value.args[0]), norm(st.value.args[1])))
     return out
